@@ -1,11 +1,12 @@
 CONSTANTS
   Server = {1, 2, 3}
-  MaxTerm = 2
+  Campaigners = {1, 2, 3}
+  MaxTerm = 1
   MaxProposals = 1
   MaxCrashes = 1
-  MaxDrops = 0
-  MaxDups = 0
-  MaxHeartbeats = 0
+  MaxDrops = 1
+  MaxDups = 1
+  MaxHeartbeats = 1
   MaxLog = 3
   MaxNet = 4
   MaxEnts = 0
